@@ -4,7 +4,7 @@ One State = one path.  Branches on symbolic conditions fork (both sides checked
 for feasibility with the solver).  vf_check / vf_close are decided by a solver
 query per path; SAT answers carry a model of the vf_* inputs for native replay.
 """
-import math, time, itertools, struct, os, sys
+import math, time, itertools, struct, os, sys, re
 from fractions import Fraction
 import z3
 from . import irparse as ir
@@ -145,6 +145,8 @@ class Engine:
         self.loop_bound = loop_bound
         self.typeids = {}
         self.budget_s = 1e9
+        self.watch_all = False
+        self.harness_globals = set()
         self.cex_limit = 60
         self.slowlog = None
         self.presplit = True   # True: small-range vf_int inputs are case-split up front instead of staying symbolic
@@ -277,6 +279,12 @@ class Engine:
         if write:
             if o.const:
                 raise MemError("write to constant " + o.name)
+            if o.kind == "global" and st.user.get("watch_globals") and not st.user.get("held"):
+                gn = re.sub(r"\.\d+$", "", o.name[1:])
+                gg = self.mod.globals.get(o.name[1:])
+                if gn not in self.harness_globals and not gn.startswith(("_ZGV", "_ZTV", "_ZTT", "vtable")) and \
+                        not (gg is not None and gg.thread_local):
+                    self.guard_violation(st, P_dem(gn), "any lock (process-wide mutable state)", True, gsym=o.name[1:])
             o = self.wobj(st, p.obj)
         return o, off
 
@@ -750,6 +758,7 @@ class Engine:
         if f is None or f.is_decl:
             raise EngineError("entry function %s not defined" % entry)
         st = State()
+        self.watch_all = bool(os.environ.get("VF_WATCH_ALL"))     # experiment: watch every harness from its entry on
         fr = Frame(f)
         for (t, n), a in zip(f.params, args):
             fr.locals[n] = a
@@ -796,7 +805,7 @@ class Engine:
                                    "notes": st.notes})
         return res
 
-    def guard_violation(self, st, gname, mname, write):
+    def guard_violation(self, st, gname, mname, write, gsym=None):
         fr = st.frames[-1]
         lab = "lock.discipline." + gname
         d = self.res.checks.setdefault(lab, {"unsat": 0, "sat": 0, "unknown": 0, "concrete_ok": 0, "concrete_fail": 0})
@@ -807,7 +816,7 @@ class Engine:
         d["concrete_fail"] += 1
         r, m = self.check(st.pc, want_model=True)
         if r != "unsat":
-            self.res.cex.append({"label": lab, "kind": "lock", "inputs": self.model_inputs(st, m),
+            self.res.cex.append({"label": lab, "kind": "lock", "gsym": gsym, "inputs": self.model_inputs(st, m),
                                  "detail": "%s of %s without holding %s in %s" % ("write" if write else "read", gname, mname,
                                                                                P_dem(fr.func.name))})
 
@@ -871,6 +880,9 @@ class Engine:
             fr = st.frames[-1]
             ins = fr.instrs[fr.ip]
             st.steps += 1
+            if self.watch_all and len(st.frames) == 1 and not st.user.get("watch_started"):
+                st.user["watch_started"] = True
+                st.user["watch_globals"] = True
             if st.steps > self.max_steps:
                 raise EngineError("instruction budget exceeded on one path (%d) in %s" % (self.max_steps, fr.func.name))
             try:
